@@ -166,6 +166,7 @@ def urls(schemes, ports, hosts, paths, queries, frags):
 
 
 BARE = ["http://uk", "http://co.uk/a", "http://github.io/docs", "http://foo.github.io.com/x", "http://a.co.uk/a"]
+ODD = ["http://a.com/x|y/z", "http://a.com/x", "http://a.com.:8080/x", "http://a.com:8080/x/y", "http://a.com/x?q=1|2"]
 SMALL = ["http://a.com", "http://a.com/x", "http://a.com/x/", "http://b.a.com/x", "http://a.com/x/y", "https://a.com",
          "http://a.com:8080/x", "http://a.com/x?q=1", "http://a.co.uk", "http://b.a.co.uk/x"]
 VARIANTS = ["HTTP://A.COM/x", "http://a.com:80/x", "http://www.a.com/x", "http://a.com/x?utm_source=1", "http://a.com/x#f",
@@ -189,12 +190,12 @@ def make_spec(cls, sa, kwargs, kind, tier="quick"):
     if kind == "closure":
         store = SMALL[:8] if tier == "quick" else SMALL
         store = store + (VARIANTS[:3] if cls != "LRUTrie" else []) + (BARE[:3] if cls == "FingerprintedLRUTrie" else [])
-        q = (QUERY_URLS[::3] + VARIANTS if tier == "quick" else QUERY_URLS + VARIANTS) + BARE
+        q = (QUERY_URLS[::3] + VARIANTS if tier == "quick" else QUERY_URLS + VARIANTS) + BARE + ODD
         if cls == "LRUTrie" and tier == "quick":
             return Spec(name, cls, sa, kwargs, SMALL[:6], q, with_lru=True, raw=RAW_STEMS[:2])
         return Spec(name, cls, sa, kwargs, store, q, with_lru=(cls == "LRUTrie"))
-    store = SMALL + VARIANTS + BARE[:3]
-    q = QUERY_URLS[::2] + VARIANTS + BARE
+    store = SMALL + VARIANTS + BARE[:3] + ODD[:1] + ODD[2:3]
+    q = QUERY_URLS[::2] + VARIANTS + BARE + ODD
     return Spec(name, cls, sa, kwargs, store, q, with_lru=True)
 
 
